@@ -264,6 +264,7 @@ def replay(prop):
 def main(prop, tier):
     camp = Campaign(prop, tier)
     n = N_QUICK[prop] if tier == "quick" else N_THOROUGH[prop]
+    n = int(__import__("os").environ.get("VERIF_CASES", n))     # experiments only
     base = camp.seed * 1000003 + (8000 if prop == "C08" else 9000)
     if prop == "C08":
         camp.rule = ("unsat-biased push/pop histories in propositional QF_UF, QF_UF, QF_LRA, QF_LIA with named assertions, "
